@@ -1130,7 +1130,7 @@ impl CompileState<'_> {
                 // Check for duplicate values across all prior values.
                 if let Some(prev_span) = all_values
                     .iter()
-                    .find(|(v2, _): &&(ExprKind, Span)| value.matches(v2))
+                    .find(|(v2, _): &&(ExprKind, Span)| same_pattern(value, v2))
                     .map(|(_, span)| *span)
                 {
                     return Err(self.err(DuplicateMatchPatterns {
@@ -1964,6 +1964,28 @@ fn is_binding_pattern(pattern: &ExprKind) -> bool {
             matches!(inner.inner, ExprKind::Identifier(_))
         }
         _ => false,
+    }
+}
+
+/// Reports whether two match patterns denote the same value. Like [`ExprKind::matches`],
+/// except that the order of the fields of a struct literal is irrelevant.
+fn same_pattern(a: &ExprKind, b: &ExprKind) -> bool {
+    match (a, b) {
+        (ExprKind::NamedStruct(a), ExprKind::NamedStruct(b)) => {
+            a.identifier.matches(&b.identifier)
+                && a.sources.is_empty()
+                && b.sources.is_empty()
+                && a.fields.len() == b.fields.len()
+                && a.fields.iter().all(|(k1, v1)| {
+                    b.fields
+                        .iter()
+                        .any(|(k2, v2)| k1.matches(k2) && same_pattern(&v1.inner, &v2.inner))
+                })
+        }
+        (ExprKind::Optional(Some(a)), ExprKind::Optional(Some(b)))
+        | (ExprKind::Ok(a), ExprKind::Ok(b))
+        | (ExprKind::Err(a), ExprKind::Err(b)) => same_pattern(&a.inner, &b.inner),
+        _ => a.matches(b),
     }
 }
 
